@@ -495,8 +495,10 @@ def dist_flow_facts(repo: Path) -> dict:
 			for x in ast.walk(d):
 				if isinstance(x, ast.Name) and isinstance(x.ctx, ast.Store):
 					stores[x.id] = stores.get(x.id, 0) + 1
+			# … and no option of the command is given another value inside it (a silently changed `square` / `use_db` / source option changes which branch runs)
+			params = {a_.arg for a_ in d.args.args + d.args.kwonlyargs}
 			f['noOtherStores'] = (stores.get('query_ids') == 2 and stores.get('ref_ids') == 4 and stores.get('dmat') == 2
-			                      and stores.get('query_sigs') == 3 and stores.get('ref_sigs') == 5)
+			                      and stores.get('query_sigs') == 3 and stores.get('ref_sigs') == 5 and not (params & set(stores)))
 		except Exception:
 			pass
 	w = fn_of('cluster.py', 'dump_dmat_csv')
@@ -1172,7 +1174,7 @@ def regenerate(repo: Path, out_dir: Path) -> dict:
 	       'matrix': 'otherwise it is `jaccarddist_matrix(query_sigs, ref_sigs)` (no index selection, default chunking)',
 	       'sigsFromFiles': 'signatures that were not given pre-computed are `calc_file_signatures(kspec, SequenceFile.from_paths(<the files of that side>, \'fasta\', \'auto\'))`, which returns them in file order',
 	       'dump': 'the last statement is `dump_dmat_csv(output, dmat, query_ids, ref_ids)`: rows = queries, columns = references',
-	       'noOtherStores': 'the labels, the signatures and the matrix are assigned nowhere else in the function',
+	       'noOtherStores': 'the labels, the signatures and the matrix are assigned nowhere else in the function, and no option of the command is assigned at all',
 	       'csvHeader': '`dump_dmat_csv` writes one header row: the corner cell, then `str` of every column label',
 	       'csvRows': '… then one row per `zip_strict(row_ids, dmat)` pair: `str(row_id)` followed by `format(d, fmt)` of every cell of that matrix row',
 	       'csvFmt': '… with `fmt` defaulting to `0.4f`'}
